@@ -4,10 +4,17 @@
    "every iteration order / registration order" is "every permutation of the method list". *)
 From Coq Require Import ZArith List Bool Arith Permutation.
 Import ListNotations.
-From OvldV Require Import Model.Order Model.Ty Model.Codec Model.Resolve Spec.Dispatch Proofs.ResolveStatic.
+From OvldV Require Import Model.Order Model.Ty Model.Codec Model.Resolve Spec.Dispatch Proofs.ResolveStatic Gen.Leaf Proofs.LeafAgree.
 
 Definition Refl (sub : nat -> nat -> bool) := forall c, sub c c = true.
 Definition Antisym (sub : nat -> nat -> bool) := forall c d, sub c d = true -> sub d c = true -> c = d.
+
+(* second tie to the source: the order-sensitive leaf functions (Order.opposite / merge behind every type comparison,
+   Candidate.dominates behind every rank) as regenerated from /repo's current text are the ones the model uses *)
+Theorem C06_leaf_tied :
+  (forall o, opposite_src o = opposite o) /\ (forall l, merge_src l = merge l) /\ (forall a b, dominates_src a b = dominates a b).
+Proof. exact (conj opposite_agree (conj merge_agree dominates_agree)). Qed.
+Print Assumptions C06_leaf_tied.
 
 (* FULL STATEMENT (false of the faithful model: C06_..._refuted below): the outcome of a call is the same for every
    permutation of the method list and unchanged by adding methods that are not applicable to the call.
